@@ -22,6 +22,9 @@ KNOWN = os.path.join(VERIF, "known_findings.json")
 
 ENV = dict(os.environ)
 ENV["CARGO_NET_OFFLINE"] = "true"
+# shadow Kani bundle whose `cbmc` first relays out the GOTO binary (lib/gbf_relayout.py)
+KANI_HOME = os.path.join(TARGET, "kani-home")
+ENV["KANI_HOME"] = KANI_HOME
 ENV.setdefault("CARGO_TERM_COLOR", "never")
 
 MODELS = [
@@ -163,10 +166,16 @@ def kani_cmd(target_dir, harness=None, extra=()):
     return cmd
 
 
+def ensure_kani_home():
+    if not os.path.exists(os.path.join(KANI_HOME, "kani-0.68.0", "bin", "cbmc")):
+        subprocess.run([os.path.join(VERIF, "lib", "kani_home.sh"), VERIF], check=True)
+
+
 def base_build(specs, logdir):
     """One `cargo kani --only-codegen` of the harness crate: compiles /repo's crates (current
     working tree) and the harnesses to GOTO. Worker target dirs are copies of this one."""
     sync_lock(KANI_CRATE)
+    ensure_kani_home()
     base = os.path.join(TARGET, "kani-base")
     os.makedirs(base, exist_ok=True)
     z = sorted({f for s in specs for f in s["z"]})
@@ -283,7 +292,9 @@ class Runner:
             extra += ["-Z", "concrete-playback", "--concrete-playback=print"]
         cmd = kani_cmd(tdir, h, extra)
         lf = os.path.join(self.logdir, f"{spec['id']}{suffix}.log")
-        st, out, secs, peak = run_capped(cmd, KANI_CRATE, cap or spec["cap"], self.mem_gb, lf)
+        env = dict(ENV)
+        env["VERIF_RELAYOUT"] = "1" if spec.get("relayout", True) and os.environ.get("VERIF_RELAYOUT", "1") != "0" else "0"
+        st, out, secs, peak = run_capped(cmd, KANI_CRATE, cap or spec["cap"], self.mem_gb, lf, env=env)
         r = parse_kani(out)
         r.update({"status": st, "wall_s": round(secs, 2), "peak_rss_mb": peak >> 20, "log": lf, "cmd": " ".join(cmd)})
         if playback:
@@ -396,7 +407,7 @@ def check_property(prop, tier, jobs, seed, mem_gb, only=None, write_evidence=Tru
     if not specs:
         log(f"no harnesses for {prop}")
         return 2
-    logdir = os.path.join(EVID, "logs", f"{prop}-{tier}")
+    logdir = os.path.join(EVID, "logs", f"{prop}-{tier}" + (f"-{os.getpid()}" if only else ""))
     shutil.rmtree(logdir, ignore_errors=True)
     os.makedirs(logdir, exist_ok=True)
     log(f"== {prop} tier={tier} seed={seed} harnesses={len(specs)} jobs={jobs} repo={REPO}")
